@@ -507,7 +507,9 @@ struct Wrappers {
 	std::optional<int32_t> oi; std::optional<std::string> os; std::optional<Inner> oo; std::optional<std::vector<int32_t>> ov; std::unique_ptr<int64_t> up; std::shared_ptr<std::string> sp; std::unique_ptr<Inner> upo;
 	std::pair<int32_t, std::string> pr; std::tuple<int8_t, std::string, double> tu; std::atomic<int32_t> at{ 0 }; Ext ext;
 	std::vector<uint8_t> bin; std::vector<char> binc; std::vector<int8_t> bins;
-	template <class V> void visit(V& v) { v("oi", oi); v("os", os); v("oo", oo); v("ov", ov); v("up", up); v("sp", sp); v("upo", upo); v("pr", pr); v("tu", tu); v("at", at); v("ext", ext); v("bin", bin); v("binc", binc); v("bins", bins); }
+	signed char sca[3] = { 0, 0, 0 }; unsigned char uca[2] = { 0, 0 }; char cca[2] = { 0, 0 }; std::array<uint8_t, 3> aru{};      // native byte arrays under a key
+	template <class V> void visit(V& v) { v("oi", oi); v("os", os); v("oo", oo); v("ov", ov); v("up", up); v("sp", sp); v("upo", upo); v("pr", pr); v("tu", tu); v("at", at); v("ext", ext); v("bin", bin); v("binc", binc); v("bins", bins);
+		v("sca", sca); v("uca", uca); v("cca", cca); v("aru", aru); }
 	MZ_SERIALIZE
 };
 struct Zoo {
